@@ -1,6 +1,7 @@
 package rules
 
 import (
+	"fmt"
 	"go/token"
 	"go/types"
 	"strings"
@@ -24,12 +25,22 @@ const (
 
 func (n nilState) String() string { return [...]string{"unknown", "nil", "non-nil"}[n] }
 
+// taken records one branch decision of the path (never forgotten, unlike the per-iteration facts).
+type taken struct {
+	cond  ssa.Value // resolved condition
+	truth bool
+	at    *ssa.BasicBlock
+}
+
 type pathState struct {
-	phi   map[*ssa.Phi]ssa.Value
-	facts map[ssa.Value]nilState
-	bools map[ssa.Value]bool
-	seen  map[*ssa.BasicBlock]int
-	trace []*ssa.BasicBlock
+	fieldFacts map[string]nilState // facts about x.f that hold for every load of that field until it is stored to
+	depth      int
+	events     []taken
+	phi        map[*ssa.Phi]ssa.Value
+	facts      map[ssa.Value]nilState
+	bools      map[ssa.Value]bool
+	seen       map[*ssa.BasicBlock]int
+	trace      []*ssa.BasicBlock
 }
 
 func (p *pathState) clone() *pathState {
@@ -47,6 +58,11 @@ func (p *pathState) clone() *pathState {
 		q.seen[k] = v
 	}
 	q.trace = append([]*ssa.BasicBlock{}, p.trace...)
+	q.events = append([]taken{}, p.events...)
+	q.fieldFacts = map[string]nilState{}
+	for k, v := range p.fieldFacts {
+		q.fieldFacts[k] = v
+	}
 	return q
 }
 
@@ -110,9 +126,19 @@ func nonNilCall(c *ssa.Call) bool {
 }
 
 func (p *pathState) eval(v ssa.Value) nilState {
+	if p.depth > 12 {
+		return nsUnknown
+	}
+	p.depth++
+	defer func() { p.depth-- }()
 	v = p.resolve(v)
 	if s, ok := p.facts[v]; ok {
 		return s
+	}
+	if k := fieldKeyOf(v); k != "" {
+		if s, ok := p.fieldFacts[k]; ok {
+			return s
+		}
 	}
 	switch x := v.(type) {
 	case *snapVal:
@@ -134,6 +160,14 @@ func (p *pathState) eval(v ssa.Value) nilState {
 		// FileSet.ErrorWithPosition(err) is nil exactly when err is
 		if sc := x.Call.StaticCallee(); sc != nil && sc.Name() == "ErrorWithPosition" && len(x.Call.Args) > 0 {
 			return p.eval(x.Call.Args[len(x.Call.Args)-1])
+		}
+		// a library helper: what its returns are, given what is known about the arguments
+		if sc := x.Call.StaticCallee(); sc != nil && len(sc.Blocks) > 0 && sc.Signature.Results().Len() == 1 && helperDepth < 3 {
+			var argStates []nilState
+			for _, a := range x.Call.Args {
+				argStates = append(argStates, p.eval(a))
+			}
+			return helperNilness(sc, argStates)
 		}
 	case *ssa.Phi:
 		// unresolved phi (value defined off the path): all edges
@@ -169,6 +203,11 @@ func nilTest(cond ssa.Value) (ssa.Value, bool, bool) {
 // walkPaths enumerates the paths of fn (each block at most twice per path, at most maxPaths paths) and calls
 // visit at every instruction selected by want. It returns false if the path budget was exhausted.
 func walkPaths(fn *ssa.Function, want func(ssa.Instruction) bool, visit func(p *pathState, in ssa.Instruction)) bool {
+	return walkPathsInit(fn, nil, want, visit)
+}
+
+// walkPathsInit is walkPaths with facts known at entry (nil-states of parameters).
+func walkPathsInit(fn *ssa.Function, init map[ssa.Value]nilState, want func(ssa.Instruction) bool, visit func(p *pathState, in ssa.Instruction)) bool {
 	const maxPaths = 20000
 	n := 0
 	var dfs func(b *ssa.BasicBlock, from *ssa.BasicBlock, p *pathState) bool
@@ -222,6 +261,11 @@ func walkPaths(fn *ssa.Function, want func(ssa.Instruction) bool, visit func(p *
 			}
 		}
 		for _, in := range b.Instrs {
+			if st, ok := in.(*ssa.Store); ok {
+				if fa, ok := st.Addr.(*ssa.FieldAddr); ok {
+					delete(p.fieldFacts, fmt.Sprintf("%p.%d", fa.X, fa.Field))
+				}
+			}
 			if want(in) {
 				visit(p, in)
 			}
@@ -234,7 +278,18 @@ func walkPaths(fn *ssa.Function, want func(ssa.Instruction) bool, visit func(p *
 			tb, fb := true, true
 			// a boolean phi of `a && b` resolves, along this path, to the operand that decided it
 			cond := p.resolve(t.Cond)
+			neg := false
+			for {
+				u, isNot := cond.(*ssa.UnOp)
+				if !isNot || u.Op != token.NOT {
+					break
+				}
+				cond, neg = p.resolve(u.X), !neg
+			}
 			x, nilIfTrue, isNT := nilTest(cond)
+			if neg {
+				nilIfTrue = !nilIfTrue
+			}
 			var rx ssa.Value
 			if isNT {
 				rx = p.resolve(x)
@@ -245,24 +300,41 @@ func walkPaths(fn *ssa.Function, want func(ssa.Instruction) bool, visit func(p *
 					tb, fb = !nilIfTrue, nilIfTrue
 				}
 			} else if kv, ok := p.bools[cond]; ok {
-				tb, fb = kv, !kv
+				tb, fb = kv != neg, kv == neg
 			} else if cb, ok := ssax.ConstBool(cond); ok {
-				tb, fb = cb, !cb
+				tb, fb = cb != neg, cb == neg
 			}
 			for i, take := range []bool{tb, fb} {
 				if !take {
 					continue
 				}
 				q := p.clone()
+				{
+					ec, et := cond, i == 0
+					for {
+						u, isNot := ec.(*ssa.UnOp)
+						if !isNot || u.Op != token.NOT {
+							break
+						}
+						ec, et = u.X, !et
+					}
+					q.events = append(q.events, taken{ec, et, b})
+				}
 				if isNT {
 					isNil := nilIfTrue == (i == 0)
+					st := nsNonNil
 					if isNil {
-						q.facts[rx] = nsNil
-					} else {
-						q.facts[rx] = nsNonNil
+						st = nsNil
+					}
+					q.facts[rx] = st
+					if k := fieldKeyOf(rx); k != "" {
+						if q.fieldFacts == nil {
+							q.fieldFacts = map[string]nilState{}
+						}
+						q.fieldFacts[k] = st
 					}
 				} else {
-					q.bools[cond] = i == 0
+					q.bools[cond] = (i == 0) != neg
 				}
 				n++
 				if n > maxPaths {
@@ -280,5 +352,60 @@ func walkPaths(fn *ssa.Function, want func(ssa.Instruction) bool, visit func(p *
 	if len(fn.Blocks) == 0 {
 		return true
 	}
-	return dfs(fn.Blocks[0], nil, &pathState{phi: map[*ssa.Phi]ssa.Value{}, facts: map[ssa.Value]nilState{}, bools: map[ssa.Value]bool{}, seen: map[*ssa.BasicBlock]int{}})
+	st := &pathState{phi: map[*ssa.Phi]ssa.Value{}, facts: map[ssa.Value]nilState{}, bools: map[ssa.Value]bool{}, seen: map[*ssa.BasicBlock]int{}}
+	for k, v := range init {
+		st.facts[k] = v
+	}
+	return dfs(fn.Blocks[0], nil, st)
+}
+
+var helperDepth = 0
+
+// helperNilness: the nil-state common to all returns of fn when its parameters have the given states.
+func helperNilness(fn *ssa.Function, args []nilState) nilState {
+	helperDepth++
+	defer func() { helperDepth-- }()
+	init := map[ssa.Value]nilState{}
+	for i, p := range fn.Params {
+		if i < len(args) && args[i] != nsUnknown {
+			init[p] = args[i]
+		}
+	}
+	res := nsUnknown
+	first := true
+	ok := walkPathsInit(fn, init, isReturn, func(p *pathState, in ssa.Instruction) {
+		r := in.(*ssa.Return)
+		if len(r.Results) != 1 {
+			res = nsUnknown
+			first = false
+			return
+		}
+		s := p.eval(r.Results[0])
+		if first {
+			res, first = s, false
+		} else if s != res {
+			res = nsUnknown
+		}
+	})
+	if !ok {
+		return nsUnknown
+	}
+	return res
+}
+
+// fieldKeyOf: v is a load of base.f for a parameter / fixed base: a key shared by all loads of that field.
+func fieldKeyOf(v ssa.Value) string {
+	u, ok := v.(*ssa.UnOp)
+	if !ok || u.Op != token.MUL {
+		return ""
+	}
+	fa, ok := u.X.(*ssa.FieldAddr)
+	if !ok {
+		return ""
+	}
+	switch fa.X.(type) {
+	case *ssa.Parameter, *ssa.FreeVar, *ssa.Alloc:
+		return fmt.Sprintf("%p.%d", fa.X, fa.Field)
+	}
+	return ""
 }
